@@ -55,6 +55,8 @@ func c16Times(kind string, net, future int, storeHi int, age time.Duration, seed
 		switch kind {
 		case "dense":
 			step = c16Spacing / 2
+		case "dense6":
+			step = c16Spacing / 6
 		case "irregular":
 			x = x*6364136223846793005 + 1442695040888963407
 			step = c16Spacing/2 + time.Duration((x>>33)%uint64(9*c16Spacing/2))
@@ -80,12 +82,12 @@ func c16Times(kind string, net, future int, storeHi int, age time.Duration, seed
 func TestC16(t *testing.T) {
 	r := mon.Open(t, "C16")
 	mon.Register(r, "tail", c16Run)
-	windows := []int64{0, 1, 50, int64(5 * time.Minute), int64(10 * time.Minute), int64(15 * time.Minute), int64(time.Hour), int64(337 * time.Hour)}
+	windows := []int64{0, 1, 50, int64(time.Minute), int64(2 * time.Minute), int64(5 * time.Minute), int64(10 * time.Minute), int64(15 * time.Minute), int64(time.Hour), int64(337 * time.Hour)}
 	bts := []int64{0, 1, int64(c16Spacing)}
 	tps := []int64{int64(time.Hour), int64(336 * time.Hour)}
 	fromHs := []string{"", "", "", "one", "below-tail", "mid", "store-head", "above-store-head", "net-head"}
 	fromHashes := []string{"", "", "", "", "tail", "mid", "head"}
-	chains := []string{"regular", "dense", "irregular", "halted", "young", "bursty"}
+	chains := []string{"regular", "dense", "dense6", "irregular", "halted", "young", "bursty"}
 	rng := r.Rand("c16")
 	pick := func() c16Cfg {
 		for {
@@ -112,6 +114,15 @@ func TestC16(t *testing.T) {
 						mon.Emit(r, "tail", p2, "tail")
 					}
 				}
+			}
+		}
+	}
+	// first start on an empty store with the network head exactly as high as the trusting period holds block times
+	for _, ch := range []string{"regular", "halted"} {
+		for _, d := range []int64{-1, 0, 1} {
+			for _, net := range []int{100, 230} {
+				tp := (int64(net) + d) * int64(c16Spacing)
+				mon.Emit(r, "tail", c16P{Chain: ch, Net: net, Gossip: 1, Cfgs: []c16Cfg{{WindowNs: int64(time.Hour), BTNs: int64(c16Spacing), TPNs: tp}}}, "tail")
 			}
 		}
 	}
@@ -157,7 +168,7 @@ func c16Run(c *mon.Case, p c16P) {
 			return out, nil, true
 		}
 		spacedWithinBT := func(bt int64) bool {
-			return bt > 0 && ((p.Chain == "regular" || p.Chain == "bursty") && bt >= int64(c16Spacing) || p.Chain == "dense" && bt >= int64(c16Spacing/2) || p.Chain == "young" && bt >= int64(time.Second)) && p.AgeS == 0
+			return bt > 0 && ((p.Chain == "regular" || p.Chain == "bursty") && bt >= int64(c16Spacing) || p.Chain == "dense" && bt >= int64(c16Spacing/2) || p.Chain == "dense6" && bt >= int64(c16Spacing/6) || p.Chain == "young" && bt >= int64(time.Second)) && p.AgeS == 0
 		}
 		var classes []string
 		for run, cfg := range p.Cfgs {
@@ -221,8 +232,10 @@ func c16Run(c *mon.Case, p c16P) {
 			switch {
 			case cfg.WindowNs > int64(time.Hour):
 				wc = "w>1h"
+			case cfg.WindowNs >= int64(5*time.Minute):
+				wc = "w=5min..1h"
 			case cfg.WindowNs >= int64(time.Minute):
-				wc = "w=min..1h"
+				wc = "w=1-2min"
 			case cfg.WindowNs > 0:
 				wc = "w=ns"
 			}
